@@ -5,3 +5,4 @@ from . import rules_tables  # noqa
 from . import rules_sched  # noqa
 from . import rules_guard  # noqa
 from . import rules_world  # noqa
+from . import rules_serde  # noqa
